@@ -82,7 +82,8 @@ pub fn gen_plan(rng: &mut Prng) -> RgPlan {
         let names: Vec<String> = if rng.coin() {
             (0..nv).map(|i| format!("v{i}")).collect()
         } else {
-            let mut pool = vec!["a", "b", "c", "d", "e", "x1", "node_7", "Q", "a_copy", "n_core", "x_c1", "v_c", "b_c0"];
+            // incl. names containing "_c" and pairs where one name is a prefix of the other
+            let mut pool = vec!["a", "b", "c", "d", "e", "x1", "node_7", "Q", "a_copy", "n_core", "x_c1", "v_c", "b_c0", "v1", "v10", "n", "n2", "aB", "x10"];
             rng.shuffle(&mut pool);
             pool[..nv].iter().map(|s| s.to_string()).collect()
         };
